@@ -123,7 +123,7 @@ func vkRunTCPCase(w *vkSrvWorld, tc vkTCPCase) (string, string, string) {
 		if f.Expect == "hangup" {
 			break
 		}
-		if f.Expect == "answer" && f.Kind != "hit" {
+		if f.Expect == "answer" && !vkHitKind(f.Kind) {
 			wantStub++
 		}
 	}
